@@ -279,12 +279,17 @@ ClausesSlack(e, convert) ==
   IF e.out.tag = "infeasible" THEN
     [ no_panic |-> TRUE, never_true_is_infeasible_error |-> ~everTrue, unchanged_on_error |-> post = pre ]
   ELSE IF IsErr(e) THEN
-    \* the only remaining legal error: slack range above the caller's limit (convert).  W is the width given by the
-    \* natural interval extension of a*f; any analysis at least as tight rejects only if W exceeds the limit.
-    LET a == ContentFactor({ con.f[m] : m \in DOMAIN con.f })
-        h == NatHull(PScale(con.f, a), [ x \in DOMAIN I.vars |-> EffBound(I.vars[x]) ]) IN
+    \* the only remaining legal error: slack range above the caller's limit (convert).  The loosest admissible analysis
+    \* is the natural interval extension of a*f taken over the message's terms AS LISTED (a message that repeats a
+    \* monomial gives a wider interval term by term than after merging); an implementation may be tighter, so the
+    \* error is legal only if even that width exceeds the limit.
+    \* The multiplier a is the content factor of the merged or of the listed coefficients (C16 accepts both readings).
+    LET msg == ActiveCon(pre, c).f[1]  ts == RawTerms(msg)
+        as == { ContentFactor({ con.f[m] : m \in DOMAIN con.f }), ContentFactor({ ts[i].c : i \in DOMAIN ts } \ {Zero}) }
+        bnd == [ x \in DOMAIN I.vars |-> EffBound(I.vars[x]) ]
+        h(a) == HullUnion(NatHull(PScale(con.f, a), bnd), RawHull(msg, a, bnd)) IN
     [ no_panic |-> TRUE,
-      rejects |-> convert /\ (~IsFin(h.lo) \/ RLess(R(e.in.max), RNeg(h.lo))),
+      rejects |-> convert /\ \E a \in as : (~IsFin(h(a).lo) \/ RLess(R(e.in.max), RNeg(h(a).lo))),
       unchanged_on_error |-> post = pre ]
   ELSE IF new = {} THEN
     \* moved to the removed constraints unchanged: only legal if the inequality holds on the whole box
